@@ -12,6 +12,7 @@ use crate::ops::Op;
 use crate::rng::Rng;
 use crate::run::{push_violation, violation};
 use crate::snap::{Snap, U, V};
+use delaunay::core::algorithms::locate::locate_with_stats;
 use delaunay::core::facet::FacetHandle;
 use delaunay::geometry::algorithms::convex_hull::ConvexHull;
 use delaunay::geometry::point::Point;
@@ -102,6 +103,68 @@ impl<K: SimKernel<D>, const D: usize> C19<K, D> {
         }
     }
 
+    /// Point location with hints of any provenance and tiny step budgets: no panic, and the walk
+    /// visits each cell at most once (its visited set turns a revisit into the scan fallback), so
+    /// `walk_steps <= min(step budget, live cells + 1)` - work proportional to the size of the
+    /// triangulation and to the configured budget, whatever the geometry of the stored complex.
+    fn locate_battery(&mut self, ctx: &mut StepCtx<'_, K, D>, slot: usize, post: &Snap) {
+        let mut rng = Rng::sub(ctx.header.run_seed, "c19-locate", ctx.oprec.idx);
+        if post.cells.is_empty() || !rng.chance(1, 3) {
+            return;
+        }
+        let Some(dt) = ctx.world.objs.get(slot).and_then(|o| o.as_ref()).cloned() else { return };
+        let kernel = K::default();
+        let cells = post.cells.len();
+        let mut queries: Vec<Vec<f64>> = Vec::new();
+        let v = &post.verts[rng.usize_below(post.verts.len())];
+        let w = &post.verts[rng.usize_below(post.verts.len())];
+        queries.push(v.coords.clone());
+        queries.push(v.coords.iter().zip(&w.coords).map(|(a, b)| a / 2.0 + b / 2.0).collect());
+        let mut far = w.coords.clone();
+        let ax = rng.usize_below(D);
+        far[ax] = if rng.chance(1, 2) { 1e300 } else { -3.5e7 };
+        queries.push(far);
+        let hints = [
+            ("none", None),
+            ("live", Some(ckey(post.cells[rng.usize_below(cells)].key))),
+            ("fabricated", Some(ckey(0x0000_0077_0000_0031))),
+        ];
+        for q in &queries {
+            if q.iter().any(|x| !x.is_finite()) {
+                continue;
+            }
+            let mut arr = [0.0f64; D];
+            arr.copy_from_slice(q);
+            let point = Point::new(arr);
+            for (hname, hint) in &hints {
+                for budget in [None, Some(1usize), Some(2 + rng.usize_below(3))] {
+                    let knobs: Vec<(String, usize)> = budget.map(|b| vec![("locate.max_steps".to_string(), b)]).unwrap_or_default();
+                    delaunay::verif::knob::set_all(&knobs);
+                    let r = catch_unwind(AssertUnwindSafe(|| locate_with_stats(dt.tds(), &kernel, &point, *hint)));
+                    delaunay::verif::knob::set_all(&[]);
+                    ctx.stats.executions += 1;
+                    match r {
+                        Err(p) => {
+                            self.report(ctx, "locate_with_stats", hname, &p);
+                            return;
+                        }
+                        Ok(Ok((_, st))) => {
+                            let bound = budget.map_or(cells + 1, |b| b.min(cells + 1));
+                            if st.walk_steps > bound {
+                                push_violation(
+                                    ctx.violations,
+                                    violation("C19", "locate-walk-exceeds-bound", ctx.step, format!("hint={hname}|budget={}", budget.map_or("default".into(), |b| b.to_string())), format!("locate_with_stats({q:?}) walked {} steps with {} live cells and step budget {:?}", st.walk_steps, cells, budget)),
+                                );
+                                return;
+                            }
+                        }
+                        Ok(Err(_)) => {}
+                    }
+                }
+            }
+        }
+    }
+
     fn report(&self, ctx: &mut StepCtx<'_, K, D>, call: &str, hull: &str, payload: &Box<dyn std::any::Any + Send>) {
         let msg = payload.downcast_ref::<String>().cloned().or_else(|| payload.downcast_ref::<&str>().map(|s| (*s).to_string())).unwrap_or_else(|| "non-string panic payload".into());
         let first = msg.lines().next().unwrap_or("").to_string();
@@ -129,6 +192,7 @@ impl<K: SimKernel<D>, const D: usize> Monitor<K, D> for C19<K, D> {
             };
             if let Some(slot) = slot {
                 self.hull_battery(ctx, slot, post);
+                self.locate_battery(ctx, slot, post);
             }
         }
         if out.kind == OutKind::Panic {
